@@ -1,0 +1,10 @@
+//go:build verif
+
+// Round 6, area K: version.String (the --version line and the "version" field of /info, /ping headers). Comment-only file.
+
+package version
+
+//@ func String(app string) string
+//@   props C15 C10
+//@   modifies
+//@   nochan
